@@ -793,7 +793,8 @@ def case_rechunk(ctx, inp):
         from dask.array.core import normalize_chunks
         # rechunk keeps the old chunks on axes that are missing / None, then normalises with previous_chunks
         if isinstance(target, dict):
-            pre = tuple(target[i] if target.get(i) is not None else old[i] for i in range(len(shape)))
+            tn = {k % len(shape): v for k, v in target.items()}     # negative axis keys (validate_axis)
+            pre = tuple(tn[i] if tn.get(i) is not None else old[i] for i in range(len(shape)))
         elif isinstance(target, (tuple, list)):
             pre = tuple(t if t is not None else o for t, o in zip(target, old))
         else:
@@ -821,6 +822,54 @@ def case_rechunk(ctx, inp):
     ctx.branch("api:%dd" % len(shape))
     if kw.get("balance"):
         ctx.branch("api:balance")
+
+
+def case_unknown(ctx, inp):
+    """Rechunking an array with unknown (nan) chunk sizes along one axis: the other axes rechunk exactly, the unknown
+    axis must stay unchanged (changing it raises ValueError), values equal NumPy."""
+    import numpy as np
+    import dask.array as da
+    setup_dask()
+    old = tuple(tuple(c) for c in inp["old"])
+    shape = tuple(sum(c) for c in old)
+    x = (np.arange(int(np.prod(shape))) * 3 % 17).reshape(shape)
+    mask = np.array(inp["mask"], dtype=bool)
+    d = da.from_array(x, chunks=old)
+    y = d[da.from_array(mask, chunks=(old[0],))]          # axis 0 gets nan chunks
+    want = x[mask]
+    tgt = inp["target"]                                     # per-axis: None (keep) or a list of chunk sizes
+    if tgt[0] is not None:
+        try:
+            y.rechunk({0: tuple(tgt[0])})
+        except ValueError:
+            ctx.branch("unknown:changing-the-unknown-axis-raises")
+            return
+        except Exception as e:
+            ctx.fail(f"rechunk of the unknown axis raised {type(e).__name__} (ValueError expected)", observed=str(e)[:200])
+            return
+        ctx.fail("rechunk changed an axis with unknown chunk sizes without raising", observed=tgt)
+        return
+    spec = {i: tuple(t) for i, t in enumerate(tgt) if t is not None}
+    if inp.get("negative_keys"):
+        spec = {i - len(shape): t for i, t in spec.items()}
+    kw = {k: inp[k] for k in ("threshold", "block_size_limit") if inp.get(k) is not None}
+    try:
+        r = y.rechunk(spec if inp.get("form") != "tuple" else tuple(tuple(t) if t is not None else None for t in tgt), **kw)
+        got = r.compute(scheduler="sync")
+    except Exception as e:
+        ctx.fail(f"rechunk of an array with unknown chunks along another axis raised {type(e).__name__}", observed=str(e)[:200])
+        return
+    if got.shape != want.shape or not np.array_equal(got, want):
+        ctx.fail("rechunk (unknown chunks on axis 0) changed the values", observed=got.tolist(), expected=want.tolist())
+    for i, t in enumerate(tgt):
+        if i > 0:
+            exp = tuple(t) if t is not None else old[i]
+            if tuple(r.chunks[i]) != exp:
+                ctx.fail("rechunk (unknown chunks on axis 0): a known axis did not get the requested chunks",
+                         observed=r.chunks[i], expected=exp)
+    if not all(isinstance(c, float) and c != c for c in r.chunks[0]) or len(r.chunks[0]) != len(old[0]):
+        ctx.fail("rechunk (unknown chunks on axis 0): the unknown axis changed", observed=str(r.chunks[0]))
+    ctx.branch("unknown:other-axes-rechunked")
 
 
 def _task_canon(t):
@@ -958,7 +1007,7 @@ def _multi_api(ctx, op, ys, targets, x):
 
 
 CASES = {"normalize": case_normalize, "intersect": case_intersect, "planner": case_planner, "rechunk": case_rechunk,
-         "multi": case_multi}
+         "multi": case_multi, "unknown": case_unknown}
 
 
 # ---------------------------------------------------------------------------
@@ -1221,6 +1270,18 @@ def generate(ctx):
             yield "planner", {"op": "plan", "old": [rand_comp(rng, s) for s in shape],
                               "new": [rand_comp(rng, s) for s in shape], "itemsize": rng.choice([1, 4, 8]),
                               "threshold": rng.choice([None, 1, 2, 4]), "bsl": rng.choice([None, 8, 64, 256, 4096])}
+    # arrays with unknown chunk sizes on axis 0 (boolean mask): the other axes rechunk, the unknown one must not
+    for _ in range(ctx.n(40, 400)):
+        nd = rng.choice([2, 2, 3])
+        shape = [rng.randint(2, 7) for _ in range(nd)]
+        old = [rand_comp(rng, s) for s in shape]
+        mask = [rng.random() < 0.6 for _ in range(shape[0])]
+        tgt = [None] + [rand_comp(rng, s) if rng.random() < 0.7 else None for s in shape[1:]]
+        if rng.random() < 0.12:
+            tgt[0] = rand_comp(rng, shape[0])
+        yield "unknown", {"old": old, "mask": mask, "target": tgt, "negative_keys": rng.random() < 0.3,
+                          "form": rng.choice(["dict", "dict", "tuple"]), "threshold": rng.choice([None, 1]),
+                          "block_size_limit": rng.choice([None, 16, 64])}
     for _ in range(ctx.n(150, 1500)):
         n = rng.randint(1, 80)
         yield "planner", {"op": "balance", "cs": rand_comp(rng, n, rng.choice(["uniform", "uniform", "irregular", "ragged"]))}
@@ -1239,11 +1300,13 @@ def generate(ctx):
         elif r < 0.8:
             target = {"k": "seq", "v": [rng.choice([rng.randint(1, s + 1), -1, None, "auto"]) for s in shape]}
         elif r < 0.9:
-            target = {"k": "dict", "v": [[i, rng.choice([rng.randint(1, s + 1), -1, "auto"])] for i, s in enumerate(shape) if rng.random() < 0.6]}
+            neg = rng.random() < 0.3   # negative axis keys: validate_axis
+            target = {"k": "dict", "v": [[i - nd if neg else i, rng.choice([rng.randint(1, s + 1), -1, "auto"])]
+                                         for i, s in enumerate(shape) if rng.random() < 0.6]}
         else:
             target = {"k": "scalar", "v": rng.choice([rng.randint(1, 5), "auto", -1])}
         yield "rechunk", {"old": old, "target": target, "threshold": rng.choice([None, None, 1, 2]),
-                          "block_size_limit": rng.choice([None, None, 8, 16, 64, 512]),
+                          "block_size_limit": rng.choice([None, None, 8, 16, 64, 512, "64B", "1kiB"]),
                           "balance": True if rng.random() < 0.1 else None,
                           "method": rng.choice([None, None, None, "tasks", "p2p"]),
                           "dtype": rng.choice(["i8", "i4", "f8"])}
